@@ -15,7 +15,7 @@ import (
 func init() {
 	register(&Prop{
 		ID:         "C07",
-		Decided:    "(1) in processAggregationResults the clauses run in relational order on every path: DISTINCT, HAVING, strip of hidden HAVING columns, ORDER BY, LIMIT, delivery; (2) LIMIT keeps a prefix results[:Limit] and only when len>Limit; (3) every hidden-column family the parser creates (__having_N__, __winagg_N__) has a strip site with a matching prefix in the stream package; (3b) a HAVING aggregate call is bound only to the alias of that very call text, to the call text itself, or to a freshly registered hidden aggregate; (4) compareOrderValues returns -1/0/+1 exactly for a<b / a=b / a>b on numbers (NaN unordered => 0), times and strings; Sorter.less uses c<0 for ASC and c>0 for DESC and continues to the next key on ties. Also: the batch handed to the result channel and the sinks is never backed by storage the engine keeps (field or package variable); text heuristics that cut 'first ( … last )' prove that the call spans the text (or every caller does); an aggregate registered from ParseAggregateTypeWithExpression is registered together with its expression argument. Also: a HAVING predicate that cannot be compiled filters everything out (never returns its input); float ORDER BY keys are converted to integers only after an integrality test; clause-text loops can end at every later clause keyword. Also: a stage that sweeps result rows by pattern (ranges over the row and deletes by prefix) tests a prefix that is not also a prefix of another hidden column family (__having_, __winagg_, …): it cannot delete what a later stage still reads (ownmap/hidden-column-families).",
+		Decided:    "(1) in processAggregationResults the clauses run in relational order on every path: DISTINCT, HAVING, strip of hidden HAVING columns, ORDER BY, LIMIT, delivery; (2) LIMIT keeps a prefix results[:Limit] and only when len>Limit; (3) every hidden-column family the parser creates (__having_N__, __winagg_N__) has a strip site with a matching prefix in the stream package; (3b) a HAVING aggregate call is bound only to the alias of that very call text, to the call text itself, or to a freshly registered hidden aggregate; (4) compareOrderValues returns -1/0/+1 exactly for a<b / a=b / a>b on numbers (NaN unordered => 0), times and strings; Sorter.less uses c<0 for ASC and c>0 for DESC and continues to the next key on ties. Also: the batch handed to the result channel and the sinks is never backed by storage the engine keeps (field or package variable); text heuristics that cut 'first ( … last )' prove that the call spans the text (or every caller does); an aggregate registered from ParseAggregateTypeWithExpression is registered together with its expression argument. Also: a HAVING predicate that cannot be compiled filters everything out (never returns its input); float ORDER BY keys are converted to integers only after an integrality test; clause-text loops can end at every later clause keyword. Also: a stage that sweeps result rows by pattern (ranges over the row and deletes by prefix) tests a prefix that is not also a prefix of another hidden column family (__having_, __winagg_, …): it cannot delete what a later stage still reads (ownmap/hidden-column-families). Also: no regular expression of the shape name\\(.*\\)$ (first '(' to last ')') is compiled in the packages that classify SELECT items and aggregate calls (shape/whole-call-regex).",
 		NotDecided: "the arithmetic of post-aggregation expressions and the classification of SELECT items, HAVING truth values, DISTINCT's JSON-based equality, aggregate values.",
 		Run:        runC07,
 	})
